@@ -17,9 +17,9 @@ def expand(a, x, n, dirn, rng=None):
     X = [R(v) for v in x]
     L = len(a)
     out = [{"fn": "oversample", "a": A, "num": n}]
-    ends = [(R(-5), R(Fraction(7, 2)))]
+    ends = [(R(-5), R(Fraction(7, 2))), (R(0), R(0))]          # explicit end values, incl. an explicit 0 (falsy) on both sides
     if L > n:
-        ends += [(NONE, NONE), (R(-5), NONE), (NONE, R(Fraction(7, 2)))]
+        ends += [(NONE, NONE), (R(-5), NONE), (NONE, R(Fraction(7, 2))), (R(0), NONE), (NONE, R(0))]
     elif dirn == "both":
         ends += [(R(-5), NONE)]
     for ls, rs in ends:
